@@ -1104,3 +1104,7 @@ M("C09-number-letters-taken-for-identifier", "C09", "src/cppparser/cppPreprocess
 M("C09-benign-number-skip-isxdigit", "C09", "src/cppparser/cppPreprocessor.cxx",
   "    else if (isdigit(expr[p])) {\n      // A number.  Skip it whole,", "    else if (isdigit(expr[p]) != 0) {\n      // A number.  Skip it whole,",
   benign=True)
+
+MUTANTS.append({"id": "C15-current-enum-reset-to-null", "prop": "C15", "benign": False,
+  "expect": "R15.13|current_enum|reset-to-null",
+  "edits": [("src/cppparser/cppBison.yxx", "  current_enum = last_enums.back();\n  last_enums.pop_back();\n", "  current_enum = nullptr;\n")]})
